@@ -88,3 +88,80 @@ def char_boundary_ops(P, fns):
                     g = bool(f.calls(CHAR_BOUNDARY_GUARDS))
                 out.append((f, s_, g))
     return out
+
+
+def eval_str_predicate(f, value, param=1, fuel=400):
+    """concretely evaluate a small `fn(&str) -> bool` classifier (a matches! / match / if-chain
+    over string literals) for one input: interprets const / copy / Not statements, <str as
+    PartialEq>::eq|ne calls against literals, switches and gotos. returns True / False, or None
+    when it meets a construct it does not model (the caller then falls back or fails closed)."""
+    import re as _re
+    env = {}
+    STR = object()
+
+    def val(op):
+        k = op_const(op)
+        if k is not None:
+            if 'str' in k:
+                return k['str']
+            if isinstance(k.get('v'), bool):
+                return k['v']
+            return None
+        pl = op.get('c') or op.get('m')
+        if pl is None:
+            return None
+        if pl['l'] == param:
+            return STR
+        return env.get(pl['l'])
+    bi = 0
+    while fuel > 0:
+        fuel -= 1
+        b = f.blocks[bi]
+        for st in b['s']:
+            rv = st.get('rv')
+            if not rv or 'p' in st['d']:
+                continue
+            d = st['d']['l']
+            if rv['k'] == 'use':
+                env[d] = val(rv['a'][0])
+            elif rv['k'] == 'ref' and rv['pl']['l'] == param:
+                env[d] = STR
+            elif rv['k'] == 'ref':
+                env[d] = env.get(rv['pl']['l'])
+            elif rv['k'] == 'un' and rv['op'] == 'Not':
+                v = val(rv['a'][0])
+                env[d] = (not v) if isinstance(v, bool) else None
+            else:
+                env[d] = None
+        t = b['t']
+        if t['k'] == 'goto':
+            bi = t['to'][0]
+        elif t['k'] == 'ret':
+            r = env.get(0)
+            return r if isinstance(r, bool) else None
+        elif t['k'] == 'call':
+            cal = (t['f'].get('r') or t['f'].get('p') or '')
+            m = _re.search(r'PartialEq(::|.*>::)(eq|ne)$', cal)
+            if not m or len(t['a']) != 2:
+                return None
+            a, b2 = val(t['a'][0]), val(t['a'][1])
+            if a is STR and isinstance(b2, str):
+                r = (value == b2)
+            elif b2 is STR and isinstance(a, str):
+                r = (value == a)
+            else:
+                return None
+            env[t['d']['l']] = r if m.group(2) == 'eq' else (not r)
+            bi = t['to'][0]
+        elif t['k'] == 'switch':
+            v = val(t['on'])
+            if not isinstance(v, bool):
+                return None
+            tgt = None
+            for (c, tb) in t['ts']:
+                if str(c) == ('1' if v else '0'):
+                    tgt = tb
+            bi = tgt if tgt is not None else t['else']
+        else:
+            return None
+    return None
